@@ -226,7 +226,7 @@ func tpMenu() []tpGen {
 			return &tls.GREASETransportParameter{IdOverride: 27 + 31*1000, ValueOverride: []byte{1, 2, 3}}
 		}, 27 + 31*1000, func() []byte { return []byte{1, 2, 3} }},
 	)
-	for _, id := range []uint64{1, 63, 64, 16384, 1<<62 - 1} {
+	for _, id := range []uint64{1, 0x0c, 0x2ab2, 63, 64, 16384, 1<<62 - 1} { // (0x0c and 0x2ab2: ids of the two presence-only parameters, here with a value)
 		id := id
 		m = append(m, tpGen{fmt.Sprintf("fake(id=%d)", id), func() tls.TransportParameter { return &tls.FakeQUICTransportParameter{Id: id, Val: []byte{0xaa, 0xbb}} }, id, func() []byte { return []byte{0xaa, 0xbb} }})
 	}
